@@ -272,7 +272,20 @@ class _WriterEval(T.Evaluator):
     def __init__(self, inline=None):
         super().__init__(inline=inline, max_inline=3, calls={
             "push": lambda a: self._rec("push", a), "push_java": lambda a: self._rec("push", a),
-            "push_java_str": lambda a: self._rec("str", a), "push_str": lambda a: self._rec("str", a)})
+            "push_java_str": lambda a: self._rec("str", a), "push_str": lambda a: self._rec("str", a),
+            # `out.extend(iter::repeat(c).take(n))` / `extend(iter::repeat_n(c, n))` appends c n times: the same as `for _ in 0..n { out.push(c) }`
+            "repeat": lambda a: T.V("repeat", a[0]) if len(a) == 1 else None,
+            "repeat_n": lambda a: T.V("take", T.V("repeat", a[0]), a[1]) if len(a) == 2 else None,
+            "take": lambda a: T.V("take", a[0], a[1]) if len(a) == 2 and a[0][0] == "v" and a[0][1] == "repeat" else None,
+            "from": lambda a: a[0] if len(a) == 1 and T.is_sym(a[0]) else None,
+            "extend": lambda a: self._extend(a)})
+
+    def _extend(self, a):
+        it = a[-1]
+        if len(a) == 2 and it[0] == "v" and it[1] == "take" and it[2][0][0] == "v" and it[2][0][1] == "repeat":
+            self.effects.append(("loop", ("st", "Range", {"start": ("i", 0), "end": it[2][1]}), [("push", it[2][0][2][0])]))
+            return ("t", [])
+        return None
 
     def _rec(self, kind, args):
         self.effects.append((kind, args[-1]))
